@@ -105,6 +105,19 @@ func (csm *conditionalStorageMiddleware) ListBuckets(ctx context.Context) ([]sto
 	defer span.End()
 
 	allBuckets := []storage.Bucket{}
+	// A storage may be the value of several map entries (or be the default
+	// storage as well); every bucket name is reported once.
+	seen := map[string]struct{}{}
+	addBuckets := func(buckets []storage.Bucket) {
+		for _, bucket := range buckets {
+			name := bucket.Name.String()
+			if _, ok := seen[name]; ok {
+				continue
+			}
+			seen[name] = struct{}{}
+			allBuckets = append(allBuckets, bucket)
+		}
+	}
 
 	// Include buckets from all specific storages
 	for _, bucketStorage := range csm.bucketToStorageMap {
@@ -112,7 +125,7 @@ func (csm *conditionalStorageMiddleware) ListBuckets(ctx context.Context) ([]sto
 		if err != nil {
 			return nil, err
 		}
-		allBuckets = append(allBuckets, buckets...)
+		addBuckets(buckets)
 	}
 
 	// Include buckets from default storage
@@ -120,7 +133,7 @@ func (csm *conditionalStorageMiddleware) ListBuckets(ctx context.Context) ([]sto
 	if err != nil {
 		return nil, err
 	}
-	allBuckets = append(allBuckets, buckets...)
+	addBuckets(buckets)
 
 	slices.SortFunc(allBuckets, func(a storage.Bucket, b storage.Bucket) int { return strings.Compare(a.Name.String(), b.Name.String()) })
 	return allBuckets, nil
